@@ -81,6 +81,7 @@ func (r *keyring) Remove(key ssh.PublicKey) error {
 		return errLocked
 	}
 
+	r.expireKeysLocked()
 	return r.removeLocked(key.Marshal())
 }
 
